@@ -13,7 +13,7 @@ META = {
             "inbound results/errors reach only the child they belong to with its open-info, AddressChange reaches both; "
             "connection_keep_alive is the OR; listen_protocol is child 1's protocols followed by child 2's with the larger timeout.",
     "note": "Extension component (not in properties.jsonl). Select's children are scripted recording handlers; "
-            "Local/RemoteProtocolsChange cannot be constructed outside the crate and are not driven. Select's preference for child 1 in "
+            "Select's preference for child 1 in "
             "poll (possible starvation of child 2) is not a stated property and is accepted.",
     "design_ref": "ext/X03",
 }
@@ -85,7 +85,7 @@ def run(c):
         rule="oneshot: schedule = (max_dial_negotiated, timeout, ops over send/poll/outok(i)/outerr(i,kind)/inok/inerr/addr/pend); all "
              "sequences up to length N over a 6-letter alphabet for max in 1..2 that end in an observation and contain no impossible "
              "step, plus seeded random schedules of length 5..40 ending in a drain. select: ops over queue-child-event/poll/beh/"
-             "outok/outerr/inok/inerr/addr/ka/listen/qclose/cblock/pollclose; all sequences up to length N over a 25-letter alphabet "
+             "outok/outerr/inok/inerr/addr/pchg/ka/listen/qclose/cblock/pollclose; all sequences up to length N over a 27-letter alphabet "
              "(followed by a drain) plus seeded random ones. distinct = distinct schedules that deliver at least one result/event "
              "to the handler",
         assumptions=["the driver plays the connection: results are only delivered for substream requests the handler issued, "
